@@ -271,7 +271,7 @@ def run_case(c, out_line):
         for t, o in enumerate(c["ops"]):
             ret, err = apply_op(xm, views, o)
             m = parse_obs(obs[t + 1])
-            if (err or "-") != m["err"]:
+            if o["op"] != "get" and (err or "-") != m["err"]:
                 return f"step {t} {o}: orix {'raises ' + err if err else 'succeeds'}, model err={m['err']}", t
             if o["op"] == "get":
                 want = m["ret"]
@@ -560,7 +560,8 @@ def _caller_entries(c):
 
 
 def pred_caller_has_not_indexed(case):
-    """the caller's phase list contains id -1 / a phase named not_indexed, and the failure is at construction"""
+    """the caller's phase list contains id -1 / a phase named not_indexed, and what fails is the
+    '-1 <-> not_indexed' clause right after construction"""
     if "pl" not in case:
         return False
     es = _caller_entries(case)
@@ -568,13 +569,24 @@ def pred_caller_has_not_indexed(case):
         return False
     c0 = dict(case)
     c0["ops"] = []
-    return inv_run(c0) is not None
+    msg = inv_run(c0) or ""
+    return msg.startswith("after construction") and "must be 'not_indexed'" in msg
 
 
 def pred_single_phase_duplicate_name(case):
-    """phases_in_data of a single-phase selection whose phase name also belongs to an earlier phase"""
+    """what fails is phases_in_data of a single-phase selection, and that phase's name also belongs to an
+    earlier entry of the phase list (the reported id is that earlier entry's)"""
     if "pl" not in case:
         return False
+    msg = inv_run(case) or ""
+    if "but phases_in_data lists [" not in msg:
+        return False
+    import re
+    m = re.search(r"holds phase ids \[(-?\d+)\] but phases_in_data lists \[(-?\d+)\]", msg)
+    if not m:
+        return False
+    held, listed = int(m.group(1)), int(m.group(2))
+    # replay on orix up to the failing step and look at the names
     with warnings.catch_warnings():
         warnings.simplefilter("ignore")
         r, e = try_(lambda: build(case))
@@ -582,29 +594,16 @@ def pred_single_phase_duplicate_name(case):
             return False
         xm, _, _ = r
         views = [xm]
-        for o in case["ops"]:
-            if not admissible(xm, o, views):
-                return False
+
+        def dup():
+            nm = {int(i): p.name for i, p in xm.phases}
+            return held in nm and listed in nm and nm[held] == nm[listed] and listed < held
+        if msg.startswith("after construction"):
+            return dup()
+        t = int(re.match(r"step (\d+)", msg).group(1))
+        for o in case["ops"][:t + 1]:
             apply_op(xm, views, o)
-            bad = False
-            for v in views:
-                pres = sorted(set(int(i) for i in v.phase_id))
-                if len(pres) == 1 and pres[0] in xm.phases.ids:
-                    nm = xm.phases[pres[0]].name
-                    first = [int(i) for i, p in xm.phases if p.name == nm][0]
-                    if first != pres[0]:
-                        bad = True
-            # the invariant must hold apart from this one clause
-            if bad:
-                return True
-        # also right after construction
-        for v in [xm]:
-            pres = sorted(set(int(i) for i in v.phase_id))
-            if len(pres) == 1 and pres[0] in xm.phases.ids:
-                nm = xm.phases[pres[0]].name
-                if [int(i) for i, p in xm.phases if p.name == nm][0] != pres[0]:
-                    return True
-    return False
+        return dup()
 
 
 def pred_dtype_differs(case):
@@ -718,9 +717,9 @@ def gen_ops(rng, c, length):
         r = rng.integers(100)
         ids = [int(i) for i in xm.phases.ids]
         names = list(xm.phases.names)
-        v = int(rng.integers(len(views)))
+        v = int(rng.integers(len(views))) if rng.integers(3) == 0 or len(views) == 1 else int(rng.integers(1, len(views)))
         size = int(views[v].size)
-        if r < 22:
+        if r < 22 or (len(views) == 1 and r < 45):
             ref = G.Ref(c["ny"], c["nx"], [int(p) for p in xm._phase_id], [(int(i), p.name) for i, p in xm.phases],
                         [int(i) for i in views[v].id])
             rr = rng.integers(3)
@@ -729,8 +728,8 @@ def gen_ops(rng, c, length):
             o = {"op": "sel", "v": v, "key": key}
             st = "select/" + st.split("/")[0]
         elif r < 50:
-            kind = rng.integers(10)
-            pool = ids + [-1]
+            kind = rng.integers(10 if rng.integers(3) == 0 else 8)
+            pool = ids + [-1] if rng.integers(2) else (ids or [-1])
             if kind < 4:
                 val = {"s": int(pool[rng.integers(len(pool))])}
                 st = "assign-phase-id/scalar" + ("/-1" if val["s"] == -1 else "")
